@@ -2,7 +2,7 @@
 The only stubs in the object graph: the two extension points the library documents for users.
 
  * FuncList   - a 4-line subclass of AbstractLinearObjFuncList returning a given mapping matrix
- * FitStub    - a subclass of FitImaging returning a given model_data / a given inversion
+ * FitStub    - a subclass of FitImaging returning a given model_data / a given inversion (and, optionally, a scaled noise-map)
 """
 import numpy as np
 
@@ -34,10 +34,18 @@ def classes():
             return self._matrix
 
     class FitStub(aa.FitImaging):
-        def __init__(self, dataset, model_data=None, inversion=None, use_mask_in_fit=False, run_time_dict=None, dataset_model=None):
+        def __init__(self, dataset, model_data=None, inversion=None, use_mask_in_fit=False, run_time_dict=None, dataset_model=None, noise_map=None):
             super().__init__(dataset=dataset, use_mask_in_fit=use_mask_in_fit, dataset_model=dataset_model, run_time_dict=run_time_dict)
             self._model_data = model_data
             self._inversion = inversion
+            self._noise_map = noise_map
+
+        @property
+        def noise_map(self):
+            # "Overwrite this method to return the noise-map": a fit with a scaled noise-map (down-weighted regions) of the same dataset
+            if self._noise_map is not None:
+                return self._noise_map
+            return super().noise_map
 
         @property
         def model_data(self):
